@@ -594,9 +594,9 @@ pub fn run(run: &mut Run) -> Finish {
         l.case(dec, class);
     });
     const ALPHA: [u8; 24] = [b'{', b'}', b'[', b']', b'"', b':', b',', b';', b'0', b'1', b'-', b'.', b'e', b'A', b'g', b'/', b'!', b'\\', b'\n', b' ', b')', b'\'', b'n', 0xC3];
-    let blen = tier.pick(4usize, 5);
+    let blen = tier.pick(4usize, 6);
     let nb = crate::spaces::n_seq_upto(24, blen);
-    run.par_slice("B2: every byte string of length <= 4/5 over a 24-byte JSON/VLQ-significant alphabet", 2, nb, |idx, l| {
+    run.par_slice("B2: every byte string of length <= 4/6 over a 24-byte JSON/VLQ-significant alphabet", 2, nb, |idx, l| {
         let bytes: Vec<u8> = crate::spaces::seq_upto_unrank(24, blen, idx & ((1 << 40) - 1)).iter().map(|&i| ALPHA[i]).collect();
         let (v, class, dec) = check_bytes(&bytes, "B2");
         for x in v {
@@ -609,9 +609,9 @@ pub fn run(run: &mut Run) -> Finish {
     });
     // mappings-string layer: every string of length <= 3/4 over a 12-character mapping alphabet inside a valid document
     const MALPHA: [u8; 12] = [b'A', b'C', b'D', b'g', b'/', b'f', b'+', b',', b';', b'!', b'B', b'E'];
-    let mlen = tier.pick(4usize, 5);
+    let mlen = tier.pick(4usize, 6);
     let nmap = crate::spaces::n_seq_upto(12, mlen);
-    run.par_slice("B3: every mappings string of length <= 4/5 over {A,C,D,g,/,f,+,B,E,',',';','!'} inside a valid document with 1 source and 1 name, plus the same as rangeMappings", 3, nmap * 2, |idx, l| {
+    run.par_slice("B3: every mappings string of length <= 4/6 over {A,C,D,g,/,f,+,B,E,',',';','!'} inside a valid document with 1 source and 1 name, plus the same as rangeMappings", 3, nmap * 2, |idx, l| {
         let k = idx & ((1 << 40) - 1);
         let s: Vec<u8> = crate::spaces::seq_upto_unrank(12, mlen, k / 2).iter().map(|&i| MALPHA[i]).collect();
         let s = String::from_utf8(s).unwrap();
